@@ -496,12 +496,14 @@ func (c *fctx) pureCall(call *ast.CallExpr) string {
 		}
 		return ci.field + "V"
 	case kCivil:
+		c.t.civilOps[ci.method] = true
 		id := unparen(call.Fun).(*ast.SelectorExpr).X.(*ast.Ident)
 		if m, ok := civilMethods[ci.method]; ok && len(call.Args) == 0 {
 			return id.Name + m
 		}
 		fail("method %s on a wall-clock parameter", ci.method)
 	case kTimeMethod:
+		c.t.timeOps["Time."+ci.method] = true
 		tm := paren(c.pure(ci.recv))
 		switch ci.method {
 		case "Day", "Month", "Year", "Weekday":
@@ -520,6 +522,7 @@ func (c *fctx) pureCall(call *ast.CallExpr) string {
 		}
 		fail("time.Time.%s is not part of the time idiom", ci.method)
 	case kTimeDate:
+		c.t.timeOps["time.Date"] = true
 		if len(call.Args) != 8 {
 			fail("time.Date arity")
 		}
@@ -563,6 +566,24 @@ func (c *fctx) callText(ci callInfo, call *ast.CallExpr) string {
 	g := ci.fn
 	if g.err != nil {
 		fail("callee %s is not translated", g.goName)
+	}
+	// a generic helper is translated at int: every call site must instantiate it at an integer type
+	if sig, ok := g.obj.Type().(*types.Signature); ok && sig.TypeParams().Len() > 0 {
+		fun := unparen(call.Fun)
+		if ix, ok := fun.(*ast.IndexExpr); ok {
+			fun = unparen(ix.X)
+		}
+		id, _ := fun.(*ast.Ident)
+		inst, found := c.info.Instances[id]
+		if id == nil || !found {
+			fail("generic call of %s without instance information", g.goName)
+		}
+		for i := 0; i < inst.TypeArgs.Len(); i++ {
+			bt, ok := inst.TypeArgs.At(i).Underlying().(*types.Basic)
+			if !ok || bt.Info()&types.IsInteger == 0 {
+				fail("generic %s instantiated at %s (only integer types are translated)", g.goName, inst.TypeArgs.At(i))
+			}
+		}
 	}
 	var parts []string
 	name := g.lean
@@ -685,6 +706,11 @@ func (c *fctx) effCall(call *ast.CallExpr, k func(res string) string) string {
 		}
 		if len(call.Args) != 0 {
 			fail("node method with arguments")
+		}
+		for _, g := range tg {
+			if g.err != nil {
+				fail("%s on a selected node needs %s, which is not translated", ci.method, g.goName)
+			}
 		}
 		text := dispName(ci.method) + " T " + paren(c.pure(ci.selRecv)) + " " + paren(c.pure(ci.idExpr)) + " fuel"
 		nres := 0
